@@ -538,9 +538,23 @@ theorem steps_count_pre (hs : CountSpec σ cfg R pa px po G) (P : NodeId → Pro
 /-- the unconditional case: in every reachable world the two measures are `R`-related -/
 theorem reachable_count (hs : CountSpec σ cfg R pa px po NoCond) {P : NodeId → Proto S σ} {w : World S σ}
     (h : Reachable cfg P w) : R (mA pa px w) (mT po w) := by
-  obtain ⟨pre, k, rfl⟩ := h
-  exact steps_count_pre hs P pre k (okPre_of_forall (fun _ _ _ => trivial) pre _)
-    (okSteps_of_forall (fun _ _ _ => trivial) k _)
+  have g : Grow R pa px po (init cfg P) w := by
+    refine h.rec_inv (I := fun w => Grow R pa px po (init cfg P) w) (Grow.refl hs.rel _)
+      (fun w _ hg => hg.trans hs.rel (grow_step hs P w (okStep_of_forall (fun _ _ _ => trivial) w)))
+      (fun w n p _ hg => hg.trans hs.rel (grow_runProg hs.toCountSpec0 n p w
+        (okProg_of_forall (fun _ _ _ => trivial) _ _ _)))
+  obtain ⟨da, dt, ha, ht, hr⟩ := g
+  have h0 := steps_count hs P 0 trivial
+  have h0a : mA pa px (init cfg P) = 0 := by
+    rw [init_eq]
+    split
+    · show (_ :: ([] : List (Ev (EvKind S)))).countP pa + ([] : List (Ev (EvKind S))).countP px = 0
+      rw [countP_cons_bit, (hs.mob _ _).1]; rfl
+    · rfl
+  have h0t : mT po (init cfg P) = 0 := by
+    rw [init_eq]; split <;> rfl
+  rw [ha, ht, h0a, h0t]
+  simpa using hr
 
 end chain
 
@@ -1311,19 +1325,8 @@ theorem initWith_finv (cfg : Config S) (P : NodeId → Proto S σ) (pre : List (
 
 theorem reachable_finv {cfg : Config S} (ht : cfg.hasTimer = true) (hdt : 0 ≤ cfg.dt)
     {P : NodeId → Proto S σ} {w : World S σ} (h : Reachable cfg P w) : FInv n name w := by
-  obtain ⟨pre, k, rfl⟩ := h
-  suffices ∀ k (w : World S σ), WInv w → PInv w → FInv n name w → FInv n name (steps cfg P k w) from
-    this k _ (initWith_inv cfg P hdt pre) (initWith_pinv cfg P pre) (initWith_finv cfg P pre)
-  intro k
-  induction k with
-  | zero => intro w _ _ hf; exact hf
-  | succ k ih =>
-    intro w hw hp hf
-    have hprep : WInv (prep cfg P w) := by
-      unfold prep; split
-      · exact hw
-      · exact (initialise_inv cfg P w hw).1
-    exact ih _ (step_inv cfg hdt P w hw).1 (step_pinv cfg P w hw hp hprep) (hf.fext (fext_step cfg ht P w hw hp))
+  refine h.rec_inv (init_finv cfg P) (fun w hr hf => ?_) (fun w m p _ hf => hf.fext (fext_runProg cfg m p w))
+  exact hf.fext (fext_step cfg ht P w (reachable_inv hdt hr) (reachable_pinv hdt hr))
 
 end fext
 
